@@ -9,7 +9,7 @@ Import ListNotations.
 Open Scope N_scope.
 
 (* inputs are mutations of one valid encoding [base] *)
-Inductive mut := MId | MTrunc (n : N) | MWord (i k : N) | MRaw (b : bytes).
+Inductive mut := MId | MTrunc (n : N) | MWord (i k : N) | MWordV (i v : N) | MRaw (b : bytes).
 
 Definition bval (k len : N) : N :=
   nth (N.to_nat k)
@@ -23,6 +23,8 @@ Definition apply_mut (base : bytes) (m : mut) : bytes :=
   | MWord i k =>
       firstn (N.to_nat (32 * i)) base ++ be 32 (bval k (N.of_nat (length base)))
       ++ skipn (N.to_nat (32 * i + 32)) base
+  | MWordV i v =>
+      firstn (N.to_nat (32 * i)) base ++ be 32 v ++ skipn (N.to_nat (32 * i + 32)) base
   | MRaw b => b
   end.
 
